@@ -56,6 +56,9 @@ KERNEL_OPS = {
                         ('rkyv_partial_cmp', ALL_DEC, ALL_DEC), ('rkyv_cmp', ALL_DEC, ALL_DEC), ('rkyv_partial_cmp_dec', ALL_DEC, ALL_DEC),
                         ('rkyv_dec_partial_cmp', ALL_DEC, ALL_DEC), ('rkyv_roundtrip', ALL_DEC, None)],
     'serde': [('serde_to_json', ALL_DEC, None), ('serde_roundtrip', ALL_DEC, None)],
+    'num_traits::': [('nt_abs_sub', ALL_DEC, ALL_DEC), ('nt_is_zero', ALL_DEC, None), ('nt_is_one', ALL_DEC, None), ('nt_abs', ALL_DEC, None),
+                     ('nt_signum', ALL_DEC, None), ('nt_is_positive', ALL_DEC, None), ('nt_is_negative', ALL_DEC, None),
+                     ('nt_from_str_radix', ('s',), None)],
     'parser::': [('from_str', ('s',), None)],
     'from_str::': [('from_str', ('s',), None), ('try_from_str', ('s',), None), ('try_from_string', ('s',), None), ('parse', ('s',), None)],
     'format::': [('to_string', ALL_DEC, None), ('string_from', ALL_DEC, None), ('debug', ALL_DEC, None), ('format', ALL_DEC, None)],
@@ -367,6 +370,8 @@ def driver(profile='dev'):
             _DRIVER[profile] = build_driver.build('dev', features=('rkyv',))
         elif profile == 'serde':
             _DRIVER[profile] = build_driver.build('dev', features=('serde',))
+        elif profile == 'numtraits':
+            _DRIVER[profile] = build_driver.build('dev', features=('numtraits',))
         else:
             _DRIVER[profile] = build_driver.build(profile)
     return _DRIVER[profile]
@@ -450,6 +455,8 @@ def _search(pid, r, d, key, tier, seed, profile_pair=None, budget=None, combos=N
                 ns = [0]
                 if op in ('div_rounded', 'mul_rounded'):
                     ns = [0, 1, 2, 5, 17, 18, 19, 32, 255]
+                if op == 'nt_from_str_radix':
+                    ns = [10, 10, 2, 16, 36, 0]
                 if op in ('round', 'checked_round'):
                     ns = [-128, -40, -39, -38, -22, -21, -20, -3, -1, 0, 1, 2, 5, 17, 18, 19, 127]
                 precs = ['-']
@@ -498,7 +505,7 @@ def compare(lines, metas, profile_pair=None):
                         'expected': 'same outcome in both profiles', 'got': '%s: %s / %s: %s' % (profile_pair[0], ga, profile_pair[1], gb),
                         'profiles': list(profile_pair)}
         return None
-    outs = run_batch(lines, 'rkyv' if (metas and metas[0][0].startswith('rkyv_')) else 'serde' if (metas and metas[0][0].startswith('serde_')) else 'dev')
+    outs = run_batch(lines, 'rkyv' if (metas and metas[0][0].startswith('rkyv_')) else 'serde' if (metas and metas[0][0].startswith('serde_')) else 'numtraits' if (metas and metas[0][0].startswith('nt_')) else 'dev')
     for (op, l, rr, n, m, pr), got in zip(metas, outs):
         if got in ('BADARG', 'BADOP', 'SKIPPED'):
             continue
